@@ -315,6 +315,26 @@ pub fn universe(mapping: &[u8], rng: &mut Rng, cfg: &UniCfg) -> Vec<Query> {
             }
         }
     }
+    // queries nobody asks: control characters, dots in method names, odd parameter strings, odd files
+    if let Some((cname, methods)) = merged.iter().next() {
+        let m0 = methods.keys().next().cloned().unwrap_or_else(|| "a".into());
+        for c in [format!("{}\0", cname), format!("{}\n{}", cname, cname), format!(" {}", cname), format!("{}.", cname)] {
+            q.push(Query::Class(c.clone()));
+            q.push(Query::FrameLine { class: c, method: m0.clone(), line: 1, file: None });
+        }
+        for m in [format!("{}.{}", m0, m0), format!("{}\0", m0), format!("{} ", m0)] {
+            q.push(Query::Method(cname.clone(), m.clone()));
+            q.push(Query::FrameLine { class: cname.clone(), method: m, line: 1, file: Some("".into()) });
+        }
+        for p in ["int,", ",", " ", "int,,int", "\u{e9}"] {
+            q.push(Query::FrameParams { class: cname.clone(), method: m0.clone(), params: p.into() });
+        }
+        for f in ["R8$$SyntheticClass", "", "a:b", "\u{3000}"] {
+            for l in [1usize, 4] {
+                q.push(Query::FrameLine { class: cname.clone(), method: m0.clone(), line: l, file: Some(f.into()) });
+            }
+        }
+    }
     // unknown class frames
     for c in ["zzz.unknown", ""] {
         q.push(Query::Method(c.into(), "a".into()));
@@ -354,6 +374,19 @@ pub fn universe(mapping: &[u8], rng: &mut Rng, cfg: &UniCfg) -> Vec<Query> {
         q.push(Query::TraceText(format!("{}\n\n", t)));
         q.push(Query::TraceText(format!("{}  ", t.trim_end())));
         q.push(Query::TraceTyped(format!("{}\n\n", t)));
+        // a deep cause chain
+        let mut deep = format!("{}: top\n{}\n", exc, f0);
+        for d in 0..6 {
+            deep.push_str(&format!("Caused by: {}: level {}\n{}\n    ... {} more\n", if d % 2 == 0 { &known } else { &exc }, d, f0, d));
+        }
+        q.push(Query::TraceText(deep.clone()));
+        q.push(Query::TraceTyped(deep));
+        // non-ASCII whitespace around lines (what `trim` strips and `trim_ascii` does not), a frame with
+        // the synthetic-class placeholder as its file
+        for ws in ["\u{3000}", "\u{a0}", "\u{b}", "\u{2028}", "\u{85}"] {
+            q.push(Query::TraceText(format!("{}{}: msg{}\n{}{}{}\n", ws, exc, ws, ws, f0, ws)));
+        }
+        q.push(Query::TraceText(f0.replace("SourceFile", "R8$$SyntheticClass")));
         q.push(Query::TraceText("not a trace at all\n\n  \u{e9}\u{e9}: x".into()));
         q.push(Query::TraceTyped(frame_texts.join("\n")));
         // signatures
@@ -367,6 +400,10 @@ pub fn universe(mapping: &[u8], rng: &mut Rng, cfg: &UniCfg) -> Vec<Query> {
             "".to_string(),
             format!("(L{})V", c0),
             "(\u{e9})\u{e9}".to_string(),
+            // array dimension thresholds (the JVM allows 255)
+            format!("({}I)V", "[".repeat(255)),
+            format!("({}I){}L{};", "[".repeat(256), "[".repeat(300), c0),
+            format!("({}L{};)V", "[".repeat(2_000), c0),
         ] {
             q.push(Query::Signature(s));
         }
